@@ -55,6 +55,7 @@ fn crafted(base: &SectionHeader, flen: u64) -> Vec<SectionHeader> {
     };
     vec![
         mk(a, n / 2, abi::SHT_PROGBITS, 0, 1),          // shares the start
+        mk(a + n / 2, n - n / 2, abi::SHT_PROGBITS, 0, 1), // starts exactly where the previous one ends
         mk(a + 2, n - 2, abi::SHT_PROGBITS, 0, 1),      // shares the end
         mk(a, n, abi::SHT_STRTAB, 0, 1),                // identical range, other type
         mk(a, n, abi::SHT_NOTE, 0, 4),                  // identical range, as notes
@@ -158,7 +159,7 @@ fn s_small_impl(enc: Enc, full: bool) -> Image {
         // keep the crafted headers that create distinct cache keys: shared start, shared end, same range
         // under other types, empty, EOF-touching, beyond EOF, compressed
         let nfile = 6; // null + 4 sections + .shstrtab
-        let keep = [0usize, 1, 2, 3, 4, 5, 7, 8, 13];
+        let keep = [0usize, 1, 2, 3, 4, 5, 6, 8, 9, 14];
         let crafted: Vec<SectionHeader> = keep.iter().map(|k| img.shdr_pool[nfile + k]).collect();
         img.shdr_pool.truncate(nfile);
         img.shdr_pool.extend(crafted);
@@ -206,7 +207,8 @@ pub fn s_phdrs(enc: Enc) -> Image {
 // ------------------------------------------------------------------ model
 #[derive(Clone, Debug, PartialEq, Eq, Hash)]
 pub enum ActKind {
-    Open,
+    /// open_stream on a reader standing at the given position
+    Open(u64),
     Op(Op),
 }
 #[derive(Clone, Debug, PartialEq, Eq, Hash)]
@@ -296,8 +298,8 @@ impl SModel {
         let mut env = None;
         for a in hist {
             match &a.kind {
-                ActKind::Open => {
-                    let (r, st) = open_stream(&self.img.bytes, &a.script);
+                ActKind::Open(p0) => {
+                    let (r, st) = open_stream_at(&self.img.bytes, &a.script, *p0);
                     env = Some(st);
                     cur = match r {
                         Ok(Ok(s)) => Some(s),
@@ -319,8 +321,8 @@ impl SModel {
     /// I/O calls made by `kind` after `hist` under `script` (choice-point discovery).
     fn discover(&self, hist: &[Act], kind: &ActKind, script: &[(u32, Choice)]) -> Vec<IoEvent> {
         match kind {
-            ActKind::Open => {
-                let (_, st) = open_stream(&self.img.bytes, script);
+            ActKind::Open(p0) => {
+                let (_, st) = open_stream_at(&self.img.bytes, script, *p0);
                 self.executions.fetch_add(1, Ordering::Relaxed);
                 let g = st.lock().unwrap();
                 g.log.clone()
@@ -356,8 +358,8 @@ impl SModel {
                             Choice::ShortHalf => got / 2,
                             Choice::ShortNm2 => got.wrapping_sub(2),
                             Choice::ShortNm1 => got.wrapping_sub(1),
-                            Choice::SeekErr | Choice::SeekErrDead => continue,
-                            Choice::Eof => {
+                            Choice::SeekErr | Choice::SeekErrDead | Choice::SeekInterrupted | Choice::SeekInterrupted2 => continue,
+                            Choice::Eof | Choice::EofDead => {
                                 if *got > 0 {
                                     alts.push(*c);
                                 }
@@ -378,7 +380,7 @@ impl SModel {
                 }
                 IoEvent::Seek { .. } => {
                     for c in self.choices() {
-                        if matches!(c, Choice::SeekErr | Choice::SeekErrDead) {
+                        if matches!(c, Choice::SeekErr | Choice::SeekErrDead | Choice::SeekInterrupted | Choice::SeekInterrupted2) {
                             alts.push(*c);
                         }
                     }
@@ -414,9 +416,9 @@ impl SModel {
         hist.push(act.clone());
         let mut bad: Option<String> = None;
         match &act.kind {
-            ActKind::Open => {
+            ActKind::Open(p0) => {
                 arm_alloc_limit(flen);
-                let (r, st) = open_stream(&self.img.bytes, &act.script);
+                let (r, st) = open_stream_at(&self.img.bytes, &act.script, *p0);
                 self.executions.fetch_add(1, Ordering::Relaxed);
                 let stats = alloc::stats();
                 alloc::set_limit(u64::MAX);
@@ -553,7 +555,8 @@ impl Model for SModel {
         if s.bad.is_some() || s.phase == 2 {
             return;
         }
-        let kinds: Vec<ActKind> = if s.phase == 0 { vec![ActKind::Open] } else { self.img.ops.iter().map(|o| ActKind::Op(*o)).collect() };
+        let l = self.img.bytes.len() as u64;
+        let kinds: Vec<ActKind> = if s.phase == 0 { vec![ActKind::Open(0), ActKind::Open(16), ActKind::Open(64.min(l)), ActKind::Open(l), ActKind::Open(l + 7)] } else { self.img.ops.iter().map(|o| ActKind::Op(*o)).collect() };
         for k in kinds {
             out.push(Act { kind: k.clone(), script: Vec::new() });
             if self.dev > 0 {
@@ -621,7 +624,7 @@ pub struct StreamSpace {
 
 fn act_json(img: &Image, a: &Act) -> Value {
     let k = match &a.kind {
-        ActKind::Open => json!("open_stream"),
+        ActKind::Open(p0) => json!({"open_stream_with_reader_at": p0}),
         ActKind::Op(op) => match op.kind {
             OpKind::SectionData | OpKind::AsStrtab | OpKind::AsRels | OpKind::AsRelas | OpKind::AsNotes => {
                 let h = &img.shdr_pool[op.arg as usize];
@@ -673,7 +676,7 @@ impl Space for StreamSpace {
         for (n, step) in path.iter().enumerate() {
             let kind = match step["k"].as_u64() {
                 Some(i) => ActKind::Op(m.img.ops[i as usize]),
-                None => ActKind::Open,
+                None => ActKind::Open(step["k"].as_str().and_then(|x| x.strip_prefix("open@")).and_then(|x| x.parse().ok()).unwrap_or(0)),
             };
             let script: Vec<(u32, Choice)> = step["s"].as_array().map(|a| a.iter().map(|x| (x[0].as_u64().unwrap() as u32, Choice::from_name(x[1].as_str().unwrap()).expect("choice"))).collect()).unwrap_or_default();
             let act = Act { kind, script };
@@ -769,7 +772,7 @@ impl Space for StreamSpace {
                 .iter()
                 .map(|a| {
                     let k = match &a.kind {
-                        ActKind::Open => json!("open"),
+                        ActKind::Open(p0) => json!(format!("open@{}", p0)),
                         ActKind::Op(op) => json!(m.img.ops.iter().position(|o| o == op)),
                     };
                     json!({"k": k, "s": a.script.iter().map(|(i, c)| json!([i, format!("{:?}", c)])).collect::<Vec<_>>()})
@@ -868,7 +871,7 @@ impl Space for Occupancy {
         for op in ops {
             // history: open, n filler loads
             let mut s = model.init_states()[0].clone();
-            s = match model.step(&s, &Act { kind: ActKind::Open, script: vec![] }) {
+            s = match model.step(&s, &Act { kind: ActKind::Open(0), script: vec![] }) {
                 Some(x) => x,
                 None => return,
             };
@@ -937,9 +940,12 @@ pub fn stream_variant_check(which: Which, open_dev: bool, bytes: &[u8], out: &mu
         }
     }
     let mut opened: Option<(Stream, Arc<std::sync::Mutex<EnvState>>)> = None;
-    for (si, sc) in scripts.iter().enumerate() {
+    // the default environment is additionally tried with the reader standing elsewhere
+    let positions: [u64; 4] = [0, 16, flen as u64, flen as u64 + 3];
+    let plan: Vec<(Vec<(u32, Choice)>, u64)> = scripts.iter().map(|s| (s.clone(), 0)).chain(positions[1..].iter().map(|p| (Vec::new(), *p))).collect();
+    for (si, (sc, p0)) in plan.iter().enumerate() {
         arm_alloc_limit(flen);
-        let (r, st) = open_stream(&img.bytes, sc);
+        let (r, st) = open_stream_at(&img.bytes, sc, *p0);
         let stats = alloc::stats();
         alloc::set_limit(u64::MAX);
         out.transitions += 1;
